@@ -448,6 +448,9 @@ pub fn leg_http(thorough: bool, seed: u64) -> Value {
                 ("unlisted".into(), Some(unlisted.to_string().into_bytes())),
                 ("unlisted-braced".into(), Some(unlisted.braced().to_string().into_bytes())),
                 ("padded".into(), Some(format!(" {l}").into_bytes())),
+                // an unlisted id crafted from listed ones: high half of one, low half of the other
+                ("mix-of-listed".into(), Some(Uuid::from_u128((listed.as_u128() & 0xffff_ffff_ffff_ffff_0000_0000_0000_0000) | (listed2.as_u128() & 0xffff_ffff_ffff_ffff)).to_string().into_bytes())),
+                ("bitwise-and-of-listed".into(), Some(Uuid::from_u128(listed.as_u128() & listed2.as_u128()).to_string().into_bytes())),
             ];
             if !thorough {
                 id_forms.retain(|(n, _)| !matches!(n.as_str(), "utf8-non-ascii" | "too-long" | "upper-listed" | "unlisted-braced"));
@@ -497,11 +500,13 @@ pub fn leg_http(thorough: bool, seed: u64) -> Value {
                         }
                         Some(_id) => {
                             // served exactly as if no list existed
+                            // a well-formed id that owned nothing before is a new client: its snapshot request names nil and is declined
+                            let owns_data = [listed, listed2, unlisted].contains(&who);
                             let exp: &[u16] = match ep {
                                 "add-version" => &[200],
                                 "get-child-version" => &[200],
                                 "add-snapshot" => &[200],
-                                _ => &[200],
+                                _ => if owns_data { &[200] } else { &[200, 404] },
                             };
                             if !exp.contains(&d.status) {
                                 ctx.v(&["C16", "C15", "C14"], format!("allowed, well-formed client id (form {fname}) answered {} on {ep}, expected {:?}", d.status, exp), &r, &tr);
@@ -673,7 +678,7 @@ pub fn leg_http(thorough: bool, seed: u64) -> Value {
                     if let Ok(gd) = call(&app, &g).await {
                         ctx.common(&gd, &g, &tr, "new-client-readback");
                         if gd.status != 200 || gd.body != body || gd.one("x-version-id") != v.map(|v| v.to_string()) {
-                            ctx.v(&["C06", "C14"], format!("the first version of a new client reads back as {} bytes (status {}), uploaded {}", gd.body.len(), gd.status, body.len()), &r, &tr);
+                            ctx.v(&["C06", "C14", "C01", "C02"], format!("the first version of a new client reads back as {} bytes (status {}), uploaded {}", gd.body.len(), gd.status, body.len()), &r, &tr);
                         }
                     }
                 }
